@@ -1483,6 +1483,71 @@ impl<'a, C: MlsConfig> Hist<'a, C> {
                 ),
             );
         }
+        // composed group model (Model.Group): the same commit applied to a WORLD of parties with symbolic secrets; `deliver` = the
+        // leaves of everybody else who is in the new epoch now; then the partition of all parties that ever were in the group
+        // (current members and the retained groups of removed ones) by their epoch secret, here by the epoch authenticator
+        if !self.w.group_rows.is_empty() {
+            let new_epoch = self.w.group(c).current_epoch();
+            let mut deliver: Vec<u32> = now.iter().filter(|&&i| i != c && self.w.group(i).current_epoch() == new_epoch).map(|&i| self.leaf_of(i)).collect();
+            deliver.sort();
+            for (_, a, b, cc) in &edits.up {
+                self.w.group_known.extend([*a, *b, *cc]);
+            }
+            for (a, b, cc) in &edits.add {
+                self.w.group_known.extend([*a, *b, *cc]);
+            }
+            if has_path {
+                if let Some(ANode::Leaf { ident, hpke, sig }) = tree_after.get(2 * new_cleaf as usize) {
+                    self.w.group_known.extend([*ident, *hpke, *sig]);
+                }
+            }
+            let mut added_leaves: Vec<u32> = tree_after
+                .iter()
+                .enumerate()
+                .filter_map(|(i, n)| match n {
+                    ANode::Leaf { ident, hpke, sig } if i % 2 == 0 && edits.add.iter().any(|x| *x == (*ident, *hpke, *sig)) => Some((i / 2) as u32),
+                    _ => None,
+                })
+                .collect();
+            added_leaves.sort();
+            let q = format!(
+                "g.commit c={} rm={} up={} add={} newleaf={} deliver={}",
+                cleaf,
+                list_u32(&edits.rm),
+                if edits.up.is_empty() { "-".into() } else { edits.up.iter().map(|(l, a, b, c)| format!("{l}:{a}:{b}:{c}")).collect::<Vec<_>>().join(",") },
+                if edits.add.is_empty() { "-".into() } else { edits.add.iter().map(|(a, b, c)| format!("{a}:{b}:{c}")).collect::<Vec<_>>().join(",") },
+                new_leaf_str,
+                list_u32(&deliver)
+            );
+            let known_g = self.w.group_known.clone();
+            self.w.group_rows.push((q, format!("{} added={}", tree_str(&canon_tree(&tree_after, &known_g)), list_u32(&added_leaves))));
+            // partition of the parties by epoch secret
+            let mut by_secret: BTreeMap<Vec<u8>, Vec<usize>> = BTreeMap::new();
+            for i in 0..self.w.members.len() {
+                let g = match (&self.w.members[i].group, self.w.members[i].ghosts.last()) {
+                    (Some(g), _) => g,
+                    (None, Some(g)) => g,
+                    _ => continue,
+                };
+                let Ok(auth) = g.epoch_authenticator() else { continue };
+                let idb = self.w.members[i].identity.clone();
+                let st = self.w.stamps.of(&idb);
+                by_secret.entry(auth.as_bytes().to_vec()).or_default().push(st);
+            }
+            let mut classes: Vec<Vec<usize>> = by_secret.into_values().collect();
+            for cl in classes.iter_mut() {
+                cl.sort();
+            }
+            classes.sort_by_key(|cl| cl[0]);
+            let cls = classes.iter().map(|cl| cl.iter().map(|x| x.to_string()).collect::<Vec<_>>().join(",")).collect::<Vec<_>>().join("|");
+            self.w.group_rows.push(("g.classes".into(), if cls.is_empty() { "-".into() } else { cls }));
+            for &i in &now {
+                let (_, b) = self.w.priv_bits(i);
+                let idb = self.w.members[i].identity.clone();
+                let st = self.w.stamps.of(&idb);
+                self.w.group_rows.push((format!("g.slots {st}"), bits(&b)));
+            }
+        }
         let all_added = joiner_leaves.len() == edits.add.len();
         for &i in &now {
             let (leaf, b) = self.w.priv_bits(i);
@@ -1625,6 +1690,10 @@ impl<'a, C: MlsConfig> Hist<'a, C> {
             }
         }
         self.w.log("create A".into());
+        if let Some(ANode::Leaf { ident, hpke, sig }) = self.w.anodes(a).first().cloned() {
+            self.w.group_known.extend([ident, hpke, sig]);
+            self.w.group_rows.push((format!("g.init {ident}:{hpke}:{sig}"), "ok".into()));
+        }
         for _ in 0..self.prof.rounds {
             self.round();
             if self.rep.failures.len() > 20 || self.w.ended {
@@ -1648,6 +1717,7 @@ pub fn run_histories(o: &Opts, prof: Profile, n: u64, stem: &str, focus: &[&'sta
     let mut seedgen = Rng::new(o.seed());
     let mut qa = QA::create(&dir, &format!("{stem}-tree"));
     let mut fqa = QA::create(&dir, &format!("{stem}-filter"));
+    let mut gqa = QA::create(&dir, &format!("{stem}-group"));
     for h in 0..n {
         let hseed = seedgen.next();
         let log: SharedCryptoLog = Default::default();
@@ -1675,6 +1745,12 @@ pub fn run_histories(o: &Opts, prof: Profile, n: u64, stem: &str, focus: &[&'sta
         hist.run();
         let rep = std::mem::take(&mut hist.rep);
         let oplog = std::mem::take(&mut hist.w.oplog);
+        // the composed-model stream is only meaningful for histories without offenders (forged keys, parties that drop out)
+        if hist.prof.p_offend == 0 {
+            for (q, a) in std::mem::take(&mut hist.w.group_rows) {
+                gqa.put(&q, &a);
+            }
+        }
         drop(hist);
         let relevant: Vec<&Failure> = rep.failures.iter().filter(|f| focus.is_empty() || focus.contains(&f.prop)).collect();
         if !relevant.is_empty() && failing_logs.len() < 5 {
@@ -1701,6 +1777,7 @@ pub fn run_histories(o: &Opts, prof: Profile, n: u64, stem: &str, focus: &[&'sta
     }
     qa.finish();
     fqa.finish();
+    gqa.finish();
     let _ = std::fs::remove_dir_all("/tmp/vharness-scratch");
     (total, failing_logs)
 }
